@@ -463,6 +463,16 @@ def prop_of_op(name):
     return "C01"
 
 
+def _undefined_result(m, known_hits, stats, full, status, sig):
+    r = {"violations": [], "known_hits": dict(known_hits), "hash": "undefined", "stats": stats, "nops": len(full),
+         "state_hash": "undefined", "status": status, "sig": sig, "undefined": m.undefined}
+    if known_hits:
+        # the history left the generator's contract only because a tolerated, recorded deviation (a call that
+        # returns silently where the model expected an exception) changed a handle: the run is cut short there
+        r["truncated_after_tolerated"] = r.pop("undefined")
+    return r
+
+
 def check_history(ops, want_prop=None, tolerate=()):
     """Run `ops` on the implementation and on the model; return a result dict with the first
     violation of each property (class, text, op index)."""
@@ -497,8 +507,7 @@ def check_history(ops, want_prop=None, tolerate=()):
         if m.undefined:
             # (only reachable through shrinking: the generator never emits such operations) the history
             # has undefined behaviour by the API's own rules, so nothing can be concluded from it
-            return {"violations": [], "known_hits": {}, "hash": "undefined", "stats": stats, "nops": len(full), "state_hash": "undefined",
-                    "status": status, "sig": sig, "undefined": m.undefined}
+            return _undefined_result(m, known_hits, stats, full, status, sig)
         # resize below reserved() must raise and change nothing (C04)
         if name == "presize" and exp.outcome == "ok":
             pool = m.slot["P"][int(op[1])]
@@ -543,6 +552,13 @@ def check_history(ops, want_prop=None, tolerate=()):
         model_states += 1
     crashed = (status != 0 or sig)
     nexec = len(blocks)
+    if crashed and not viol and nexec < len(full):
+        # the operation the child died in has not been judged by the model yet: if it has undefined behaviour by
+        # the API's own rules (possible after shrinking, or after a tolerated recorded deviation changed a handle
+        # the generator relied on), nothing can be concluded from the crash
+        hm.apply(m, full[nexec])
+        if m.undefined:
+            return _undefined_result(m, known_hits, stats, full, status, sig)
     if crashed and not viol:
         # the op after the last complete block is where the child died
         idx = min(nexec, len(full) - 1)
@@ -697,12 +713,19 @@ def _compare(m, obs, idx, op, exp, alloc_before, poolsize_prev, reserved_expecte
             if nres != len(live_views):
                 out.append(("C04", "num-reservations", "%s: numReservations() is %d with %d live reservations" % (where, nres, len(live_views)), idx))
             if all(id(v) in seen for v in live_views) and align > 0:
-                ranges = []
+                ranges, ranges_lit = [], []
                 for (_, v, off) in views:
-                    if v.size == 0:
-                        continue
-                    ranges.append(((off // align) * align, -((-(off + v.size)) // align) * align))
+                    rr = ((off // align) * align, -((-(off + v.size)) // align) * align)
+                    ranges_lit.append(rr)
+                    if v.size:
+                        ranges.append(rr)
                 want = _union(ranges)
+                # a zero-length view (e.g. a cast to a dtype wider than the view, then slice(0)) is a live
+                # reservation with an empty range: the statement does not say whether rounding an empty range
+                # [o, o) out to the alignment gives nothing or the aligned block around o; both readings pass
+                want_lit = _union([x for x in ranges_lit if x[1] > x[0]])
+                if reserved == want_lit:
+                    want = want_lit
                 reserved_expected[p.id] = want
                 if reserved != want:
                     out.append(("C04", "reserved", "%s: reserved() is %d, the live reservations %s rounded to alignment %d cover %d bytes" %
